@@ -84,6 +84,25 @@ def register_tbt(R):
                    requires=["distinct(self.errors, self.failures, self.unexpectedSuccesses, self.expectedFailures)"],
                    modifies=["self._status", "self._details"] + lists,
                    ensures=["self._status == '%s'" % word, det] + KEEPH)
+    # addSkip: status 'skip'; details are the caller's dict (which gains/overwrites a 'reason' entry when a truthy reason is
+    # given as well) or, without details, a fresh one-entry dict holding the reason as text; no callback before stopTest
+    R.contract(TB + "addSkip", props=["C08"], params={"test": "any", "reason": "any", "details": "?dict[any=>AContent]"}, frame_hist=True,
+               requires=["distinct(self.errors, self.failures, self.unexpectedSuccesses, self.expectedFailures)",
+                         "forall(lambda vk: kwget(dictof(self.skip_reasons), vk) is absent() or (kwget(dictof(self.skip_reasons), vk) is not self.errors and "
+                         "kwget(dictof(self.skip_reasons), vk) is not self.failures and kwget(dictof(self.skip_reasons), vk) is not self.unexpectedSuccesses))",
+                         "details is not self.skip_reasons"],
+               modifies=["self._status", "self._details", "dict(self.skip_reasons)", "$list", "dict(details)"],
+               exsures=["(reason is None and details is None) or not isinstance(reason, str)"],
+               ensures=["self._status == 'skip'",
+                        "implies(details is not None, self._details is details)",
+                        "implies(details is None, not allocated(self._details))",
+                        "implies(details is not None and not truthy(reason), dictof(details) == old(dictof(details)))",
+                        "implies(details is not None and truthy(reason), forall(lambda vk: vk == 'reason' or kwget(dictof(details), vk) is old(kwget(dictof(details), vk))))",
+                        "implies(details is None, forall(lambda vk: vk == 'reason' or kwget(dictof(self._details), vk) is absent()))",
+                        # the reason travels as a text content: one chunk, the utf8 encoding of the reason
+                        "implies(details is None or truthy(reason), kwget(dictof(self._details), 'reason') is not absent() and "
+                        "elems(fieldof(fieldof(kwget(dictof(self._details), 'reason'), '_get_bytes'), 'items')) == [encoded_utf8(reason)])",
+                        ] + KEEPH)
     R.contract(TB + "_err_to_details", inline=True)
 
 
